@@ -60,7 +60,7 @@ func CalleeOf(ci ssa.CallInstruction) string {
 func Returns(fn *ssa.Function) []*ssa.Return {
 	var out []*ssa.Return
 	eachInstr(fn, func(in ssa.Instruction) {
-		if r, ok := in.(*ssa.Return); ok {
+		if r, ok := in.(*ssa.Return); ok && !deadRecover[r.Block()] { // a recover block no deferred call can reach is no return (ssa_resultvars.go)
 			out = append(out, r)
 		}
 	})
